@@ -92,7 +92,8 @@ def curve_case(rep, spec, index, tmp):
         replicate = False
     t = rng.uniform(283, 373)
     how = rng.choice(["permeances", "fluxes", "ideal", "both"])
-    comment = rng.choice([None, "plain", 'with, comma', 'with "quotes"', "semi;colon, 'single'", "  spaces  "])
+    comment = rng.choice([None, "plain", 'with, comma', 'with "quotes"', "semi;colon, 'single'", "  spaces  ", "batch #3, 50% w/w", "# remark", "a\\b | c"])
+    mname = rng.choice(["M 1"] * 3 + ["PVA/PAN #2", "Pervap(TM) 4100, sheet 2", 'a "quoted" membrane', "M-1;b", "100%", "membrane\u00e9"])
     tp = pp = None
     mode = rng.choice(["V", "T", "P"])
     if mode == "T":
@@ -100,7 +101,7 @@ def curve_case(rep, spec, index, tmp):
     elif mode == "P":
         pp = rng.uniform(0, 0.5)
     units = rng.choice(gen.UNITS)
-    case = {"index": index, "what": "curve", "mixture": name, "basis": basis, "points": k, "how": how, "mode": mode, "units": units, "comment": comment}
+    case = {"index": index, "what": "curve", "mixture": name, "basis": basis, "points": k, "how": how, "mode": mode, "units": units, "comment": comment, "membrane_name": mname}
     rep.case(case, cls=f"curve|{how}|{basis}|{mode}")
     perms = [(gen.permeance_in_units(gen.loguniform(rng, 1e-9, 1e3), units, mix.first_component),
               gen.permeance_in_units(gen.loguniform(rng, 1e-9, 1e3), units, mix.second_component)) for _ in comps]
@@ -110,17 +111,18 @@ def curve_case(rep, spec, index, tmp):
         case["replicate_point"] = True
     try:
         if how == "permeances":
-            curve = DiffusionCurve(mixture=mix, membrane_name="M 1", feed_temperature=t, feed_compositions=comps, permeances=perms, comments=comment)
+            curve = DiffusionCurve(mixture=mix, membrane_name=mname, feed_temperature=t, feed_compositions=comps, permeances=perms, comments=comment)
         elif how == "fluxes":
-            curve = DiffusionCurve(mixture=mix, membrane_name="M 1", feed_temperature=t, feed_compositions=comps, partial_fluxes=fluxes,
+            curve = DiffusionCurve(mixture=mix, membrane_name=mname, feed_temperature=t, feed_compositions=comps, partial_fluxes=fluxes,
                                    permeate_temperature=tp, permeate_pressure=pp, comments=comment)
         elif how == "both":
-            curve = DiffusionCurve(mixture=mix, membrane_name="M 1", feed_temperature=t, feed_compositions=comps, partial_fluxes=fluxes,
+            curve = DiffusionCurve(mixture=mix, membrane_name=mname, feed_temperature=t, feed_compositions=comps, partial_fluxes=fluxes,
                                    permeances=perms, permeate_temperature=tp, permeate_pressure=pp, comments=comment)
         else:
             from pyvaporation.pervaporation import Pervaporation
 
             mem = gen.gen_membrane(rng, mix)
+            mem.name = mname
             with guards.budget(proc.SOFT_BUDGET):
                 curve = Pervaporation(mem, mix).ideal_diffusion_curve(t, comps, tp, pp)
     except (Exception, guards.BudgetExceeded):
